@@ -562,7 +562,7 @@ class Registries:
         for fn in [n for n in ast.walk(ci.node) if isinstance(n, (ast.FunctionDef, ast.AsyncFunctionDef))]:
             src = U(fn)
             consts = {n.value for n in ast.walk(fn) if isinstance(n, ast.Constant) and isinstance(n.value, str)}
-            if "getmembers" in src and "ismethod" in src and "startswith" in src and {"render", "_"} <= consts:
+            if "getmembers" in src and "startswith" in src and {"render", "_"} <= consts:
                 builders.append(fn)
         if not builders:
             raise AnchorError("RendererHTML does not build its rule table in the recognised form (bound methods of the instance "
